@@ -64,15 +64,16 @@ Qed.
 
 (** boolean form, as used by [prop_b] *)
 Theorem corr_implies_market_oracle : forall c r, corr_b c = true -> In r (c_runs c) ->
+  (c_fail c && N.eqb (r_outcome r) 1) = false ->   (* not a run aborted by a failing source *)
   match c_fatal c with
   | None => list_eqb Z.eqb (market_codes (r_log r)) (c_ds c) = true
   | Some _ => is_prefix (market_codes (r_log r)) (c_ds c) = true
   end.
 Proof.
-  intros c r Hc Hin. unfold corr_b in Hc. apply andb_true_iff in Hc. destruct Hc as [Hc _].
+  intros c r Hc Hin Hnf. unfold corr_b in Hc. apply andb_true_iff in Hc. destruct Hc as [Hc _].
   apply andb_true_iff in Hc. destruct Hc as [_ Hc].
-  rewrite forallb_forall in Hc.
-  pose proof (corr_run_markets _ _ _ (Hc r Hin)) as H.
+  rewrite forallb_forall in Hc. specialize (Hc r Hin). cbv beta in Hc. rewrite Hnf in Hc.
+  pose proof (corr_run_markets _ _ _ Hc) as H.
   destruct (c_fatal c).
   - destruct H as [ds2 Hd]. rewrite Hd. apply is_prefix_app.
   - rewrite H. apply list_eqb_refl. exact Z.eqb_refl.
